@@ -211,6 +211,14 @@ def _occurs(v, f):
     return False
 
 
+def _exact_div(t, c):
+    """t / c when t is syntactically a multiple of the integer constant c (e.g. 2*x / 2 = x), else None (no junk terms like (2*x - 1) div 2)"""
+    q = z3.simplify(t / c)
+    if z3.is_true(z3.simplify(q * c == t)):
+        return q
+    return None
+
+
 class Inst:
     def __init__(self, formulas, rounds=3, use_idx=False, must_contain=None):
         self.rounds = rounds
@@ -348,7 +356,9 @@ class Inst:
                         if sg == -1:
                             val = -val
                         elif sg not in (1, -1):
-                            val = val / sg
+                            val = _exact_div(val, sg)
+                            if val is None:
+                                continue
                         val = z3.simplify(val)
                         cands[k][val.get_id()] = val
                 continue
@@ -369,7 +379,9 @@ class Inst:
                 if sg == -1:
                     val = -val
                 elif sg not in (1, -1):
-                    val = val / sg       # integer coefficient: any term is a sound instance; this one solves c*v + g == gt when divisible
+                    val = _exact_div(val, sg)       # integer coefficient: only when c*v + g == gt has a syntactic solution
+                    if val is None:
+                        continue
                 val = z3.simplify(val)
                 cands[k][val.get_id()] = val
         for t in subterms(body, lambda x: z3.is_app(x) and x.decl().kind() == z3.Z3_OP_UNINTERPRETED and x.num_args() > 0):
@@ -386,7 +398,9 @@ class Inst:
                     if sg == -1:
                         val = -val
                     elif sg not in (1, -1):
-                        val = val / sg
+                        val = _exact_div(val, sg)
+                        if val is None:
+                            continue
                     val = z3.simplify(val)
                     cands[k][val.get_id()] = val
         # range-guard bounds: forall v. (lo <= v and v < hi) -> ...  gives the candidates lo and hi-1 (first / last element facts)
